@@ -85,6 +85,8 @@ type StreamClient struct {
 	Closes     []uint16
 	Observers  map[uint16]couchbase.Observer
 	OpenCh     chan uint16     // signalled on every OpenStream call
+	EndOnClose bool          // CloseStream is followed by the end notification of that stream (servers older than 5.5.0, via gocbcore)
+	EndLate    time.Duration // ... delivered this much after CloseStream has returned (0: before it returns)
 	OnOpen     func(vb uint16) // called synchronously at the start of every OpenStream call
 	NumVb      int
 	snap       *gocbcore.ConfigSnapshot
@@ -149,7 +151,12 @@ func (c *StreamClient) GetFailOverLogs(vb uint16) ([]gocbcore.FailoverEntry, err
 	if c.FailLogErr != nil {
 		return nil, c.FailLogErr
 	}
-	return []gocbcore.FailoverEntry{{VbUUID: gocbcore.VbUUID(c.UUID[vb]), SeqNo: 0}}, nil
+	// newest branch first, as the server sends it; older branches (0..2 of them, by vBucket) carry other identifiers
+	log := []gocbcore.FailoverEntry{{VbUUID: gocbcore.VbUUID(c.UUID[vb]), SeqNo: 0}}
+	for i := 0; i < int(vb%3); i++ {
+		log = append(log, gocbcore.FailoverEntry{VbUUID: gocbcore.VbUUID(c.UUID[vb] + 1000003*uint64(i+1)), SeqNo: 0})
+	}
+	return log, nil
 }
 func (c *StreamClient) GetCollectionIDs(string, []string) (map[uint32]string, error) {
 	m := map[uint32]string{}
@@ -187,8 +194,23 @@ func (c *StreamClient) OpenStream(vb uint16, _ map[uint32]string, o *models.Offs
 func (c *StreamClient) CloseStream(vb uint16) error {
 	c.mu.Lock()
 	c.Closes = append(c.Closes, vb)
+	ob := c.Observers[vb]
+	end := c.EndOnClose
 	c.mu.Unlock()
 	c.Trace.Add(TraceEv{Kind: "closereq", Vb: vb})
+	if end && ob != nil {
+		// servers older than 5.5.0 send no end notification for a closed stream; gocbcore makes one up when the close
+		// response arrives and hands it to its DCP buffer goroutine, then resolves the close request: the notification
+		// is delivered around the time CloseStream returns. EndLate > 0: that much after it.
+		if c.EndLate > 0 {
+			go func() {
+				time.Sleep(c.EndLate)
+				ob.End(models.DcpStreamEnd{VbID: vb}, gocbcore.ErrDCPStreamClosed)
+			}()
+		} else {
+			ob.End(models.DcpStreamEnd{VbID: vb}, gocbcore.ErrDCPStreamClosed)
+		}
+	}
 	return nil
 }
 func (c *StreamClient) SetOpenErr(vb uint16, err error) {
